@@ -122,6 +122,25 @@ def _relations(c, prev):
             e2 = [pathobs.project_segment(s) for s in p.escaped]
             if e2 != e0 or str(p) != s0:
                 fail("rt5", "append(%r) then pop() on %r left %r / %r" % (c[ak], basetxt, p.original, str(p)))
+            # the same after the path object was switched to the other notation (the separator setter is public API):
+            # the segment is then given in THAT notation's spelling
+            other, oak = (PathSeparators.FSLASH, "app_sl") if sep is PathSeparators.DOT else (PathSeparators.DOT, "app_dot")
+            if basetxt and oak in c:
+                q = YAMLPath(basetxt)
+                q.separator = other
+                sx = str(q)
+                if other is PathSeparators.DOT and sx.startswith("/"):
+                    continue        # not expressible in dot notation
+                q.append(c[oak])
+                x1 = [pathobs.project_segment(s) for s in q.escaped]
+                if x1 != segs:
+                    fail("rt5", "after switching %r to %s notation, append(%r) gave segments %s (text %r)" % (
+                        basetxt, "slash" if other is PathSeparators.FSLASH else "dot", c[oak], x1, q.original))
+                    continue
+                q.pop()
+                x2 = [pathobs.project_segment(s) for s in q.escaped]
+                if x2 != e0:
+                    fail("rt5", "after switching %r to the other notation, append(%r) then pop() left %r" % (basetxt, c[oak], q.original))
     except Exception as ex:  # pylint: disable=broad-except
         fail("rt5", "raised %s: %s" % (type(ex).__name__, ex))
     return res
